@@ -66,7 +66,11 @@ def strings_for(pid, t, rng, sc):
         add("sections", 3, 3, cap=600)
         add("sections", 4, 0, cap=500, sim=400, depth=7, sd=seed() + 1, minlen=4)
         add("classical", 3, 0, cap=300, sim=200, depth=6, sd=seed() + 2, minlen=4)
+        add("cxnet", 3, 4, cap=450)
+        add("cxnet", 3, 0, cap=150, sim=150, depth=7, sd=seed() + 3, minlen=5)
     else:
+        add("cxnet", 3, 5)
+        add("cxnet", 4, 0, sim=2000, depth=9, sd=seed() + 3, minlen=4)
         add("classical", 3, 4)
         add("sections", 3, 4)
         add("sections", 4, 0, sim=4000, depth=9, sd=seed() + 1, minlen=4)
